@@ -131,14 +131,6 @@ def search(ctx):
     return None
 
 
-def known_signature(f, kf):
-    if kf["id"] != "F-COHERENCE":
-        return False
-    if "uspfs" in f.batch:
-        return not R.ucoherent(f.case["costs"])
-    return not R.coherent(f.case["costs"], plain=("thl" in f.batch))
-
-
 def replay_case(payload):
     """exact_sample findings: which solver the stored input belongs to is read off its shape"""
     case = payload["case"]
